@@ -1136,3 +1136,66 @@ Lemma two_failing_then_outcomes : forall cs1 cs2, two_failing_then cs1 cs2 ->
 Proof.
   intros cs1 cs2 [A B]. subst. split; [vm_compute; reflexivity|]. vm_compute. discriminate.
 Qed.
+
+(* ================================================================== 8. a compiled Workflow and what is declared on it *)
+(* a declaration made on a compiled workflow (AddInput / AddDependency / AddEnd on any handle) is
+   not applied: every Compile fails while it is waiting, for every pair of orders *)
+Theorem declaration_after_compile_refused : forall w o ord sord k n,
+  g_compiled (w_g w) = true -> alist_get k (w_nodes w) = Some n -> wn_pending n <> [] ->
+  is_err (snd (w_compile fixed w o ord sord)).
+Proof.
+  intros w o ord sord k n C G P. unfold w_compile.
+  destruct (g_err (w_g w)) eqn:E; [eexists; reflexivity|].
+  rewrite (compiled_run_branches (w_branches w) w C).
+  destruct (existsb (bmissing (w_nodes w)) (w_branches w)); [eexists; reflexivity|].
+  destruct (compiled_run_nodes (ord ++ map fst (w_nodes w)) w C E) as [_ [_ V]].
+  destruct (run_nodes w (ord ++ map fst (w_nodes w))) as [w2 [e|]]; simpl in *; [eexists; reflexivity|].
+  exfalso. pose proof (proj1 V eq_refl k) as X. unfold pend_empty in X. rewrite G in X.
+  apply P. apply X. apply in_or_app. right. eapply alist_get_in_keys; eassumption.
+Qed.
+
+(* a successful Compile leaves nothing waiting: every deferred declaration and every static value
+   has been applied (exactly once: the next Compile finds none) *)
+Theorem compile_consumes_everything : forall w o ord sord w1 r,
+  w_compile fixed w o ord sord = (w1, OCompiled r) ->
+  forall k n, alist_get k (w_nodes w1) = Some n -> wn_pending n = [] /\ wn_static n = [].
+Proof.
+  intros w o ord sord w1 r H k n G. unfold w_compile in H.
+  destruct (g_err (w_g w)) eqn:E; [discriminate|].
+  pose proof (run_branches_nodes fixed (w_branches w) w) as NB.
+  destruct (run_branches fixed w (w_branches w)) as [wb [ob|]] eqn:B; simpl in NB.
+  { inversion H; subst. pose proof (run_branches_stop_is_err _ _ _ _ B) as [e X]. discriminate. }
+  set (L := ord ++ map fst (w_nodes wb)) in *.
+  pose proof (run_nodes_node_keys L wb) as KN.
+  destruct (run_nodes wb L) as [wn [en|]] eqn:R; [discriminate|]. simpl in KN.
+  set (M := sord ++ map fst (w_nodes wn)) in *.
+  pose proof (run_statics_node_keys M wn) as KS.
+  destruct (run_statics fixed wn M) as [ws [es|]] eqn:S; [discriminate|]. simpl in KS.
+  destruct (g_compile fixed (w_g ws) o) as [g' out]. inversion H; subst. simpl in G.
+  (* k is a key of every table on the way *)
+  assert (IKs : In k (map fst (w_nodes ws))) by (eapply alist_get_in_keys; eassumption).
+  assert (IKn : In k (map fst (w_nodes wn))) by (rewrite <- KS; exact IKs).
+  assert (IKb : In k (map fst (w_nodes wb))) by (rewrite <- KN; exact IKn).
+  assert (Gb : exists nb, alist_get k (w_nodes wb) = Some nb).
+  { destruct (alist_get k (w_nodes wb)) as [nb|] eqn:X; [eauto|]. apply alist_get_none_notin in X. contradiction. }
+  destruct Gb as [nb Gb].
+  pose proof (run_nodes_final_node L wb wn k nb R Gb (in_or_app _ _ _ (or_intror IKb))) as Gn.
+  destruct (g_compiled (w_g wn)) eqn:C.
+  - (* an already compiled workflow: the static values stage changes nothing and passed *)
+    pose proof (compiled_run_statics M wn C) as X. rewrite S in X. simpl in X. subst ws.
+    rewrite Gn in G. inversion G; subst n. simpl. split; [reflexivity|].
+    pose proof (proj1 (compiled_statics_verdict M wn C)) as V. rewrite S in V. specialize (V eq_refl k (in_or_app _ _ _ (or_intror IKn))).
+    unfold stat_empty in V. rewrite Gn in V. exact V.
+  - pose proof (run_statics_final_node M wn ws k _ C S Gn (in_or_app _ _ _ (or_intror IKn))) as Gs.
+    rewrite Gs in G. inversion G; subst n. unfold snode. simpl.
+    destruct (wn_static nb); simpl; auto.
+Qed.
+
+Definition wf_consumed : list wcall :=
+  [ WAddNode "a" NLambda false; WAddInput "a" START WNormal ["A"]; WSetStatic "a" "B"; WAddInput END_ "a" WNormal [] ].
+
+Lemma wf_consumed_run :
+  let w1 := fst (w_compile fixed (final (wstep fixed) (w_init false) wf_consumed) opt_default [] []) in
+  okind (snd (w_compile fixed (final (wstep fixed) (w_init false) wf_consumed) opt_default [] [])) = 3%nat /\
+  okind (snd (w_compile fixed (fst (wstep fixed w1 (WAddInput "a" START WDepOnly []))) opt_default [] [])) = 1%nat.
+Proof. vm_compute. split; reflexivity. Qed.
